@@ -581,6 +581,67 @@ def oracle_update(c, r):
     return None
 
 
+
+# ------------------------------------------------------- nested re-configuration through set_params
+
+NESTED = {"pelt": "cost", "mw": "change_score", "sbs": "change_score", "cbs": "anomaly_score", "capa": "collective_saving",
+          "mvcapa": "collective_saving", "loc": "cost", "sav": "baseline_cost", "chg": "cost"}
+
+
+def nested_case(rng):
+    return {"kind": rng.choice(list(NESTED)), "cost": rng.choice(["l2", "gvar"]), "p0": rng.choice([0.0, 1.0]), "p1": rng.choice([2.5, -1.5, 4.0]),
+            "seed": rng.randint(0, 10**6), "used_before": rng.random() < 0.5, "data": rng.choice([0, 2, 5])}
+
+
+def _mk_nested(c, prm):
+    from skchange.anomaly_detectors import CAPA, MVCAPA, CircularBinarySegmentation
+    from skchange.anomaly_scores import LocalAnomalyScore, Saving
+    from skchange.change_detectors import PELT, MovingWindow, SeededBinarySegmentation
+    from skchange.change_scores import ChangeScore
+    from skchange.costs import GaussianVarCost, L2Cost
+
+    cost = L2Cost(param=prm) if c["cost"] == "l2" else GaussianVarCost(param=(prm, 1.5))
+    return {"pelt": lambda: PELT(cost, min_segment_length=2), "mw": lambda: MovingWindow(cost, bandwidth=3),
+            "sbs": lambda: SeededBinarySegmentation(cost, min_segment_length=2), "cbs": lambda: CircularBinarySegmentation(cost, min_segment_length=2),
+            "capa": lambda: CAPA(cost), "mvcapa": lambda: MVCAPA(cost), "loc": lambda: LocalAnomalyScore(cost), "sav": lambda: Saving(cost),
+            "chg": lambda: ChangeScore(cost)}[c["kind"]]()
+
+
+def impl_nested(c):
+    """an object whose wrapped cost is re-configured through `set_params(<component>__param=...)` must behave like one
+    constructed with that configuration"""
+    X = datasets(c["seed"])[c["data"]]
+    key = NESTED[c["kind"]] + "__param"
+    new = c["p1"] if c["cost"] == "l2" else (c["p1"], 1.5)
+    try:
+        a, b = _mk_nested(c, c["p0"]), _mk_nested(c, c["p1"])
+        if c["used_before"]:
+            a.fit(X)
+        a.set_params(**{key: new})
+        a.fit(X)
+        b.fit(X)
+        if c["kind"] in ("loc", "sav", "chg"):
+            cut = {"loc": [2, 6, 10, 15], "sav": [3, 12], "chg": [2, 9, 17]}[c["kind"]]
+            return {"outcome": "ok", "same": bool(np.array_equal(a.evaluate(np.array([cut])), b.evaluate(np.array([cut]))))}
+        same = frame_sig(a.predict(X)) == frame_sig(b.predict(X))
+        try:
+            same = same and frame_sig(a.transform_scores(X)) == frame_sig(b.transform_scores(X))
+        except NotImplementedError:
+            pass
+        return {"outcome": "ok", "same": bool(same)}
+    except Exception as ex:
+        return {"outcome": "other:" + type(ex).__name__, "msg": str(ex)[:200]}
+
+
+def oracle_nested(c, r):
+    if r["outcome"] != "ok":
+        return f"{c['kind']}: nested set_params raised {r['outcome']} {r.get('msg', '')}"
+    if not r["same"]:
+        return (f"{c['kind']} ({c['cost']}) re-configured by set_params({NESTED[c['kind']]}__param={c['p1']}) differs from an object constructed "
+                f"with that parameter" + (" (it had been fitted before)" if c["used_before"] else ""))
+    return None
+
+
 def run(chk: core.Check):
     tier = chk.tier
     N = {"quick": 150, "thorough": 3000}[tier]
@@ -624,6 +685,8 @@ def run(chk: core.Check):
     chk.run_stream("arrays", [array_case(rng) for _ in range(N // 2)], impl_array, oracle=oracle_array, site="caller-data")
     rng = core.rng_for(chk.seed, "C10/update")
     chk.run_stream("update", [update_case(rng) for _ in range(N)], impl_update, oracle=oracle_update, site="update")
+    rng = core.rng_for(chk.seed, "C10/nested")
+    chk.run_stream("nested", [nested_case(rng) for _ in range(N)], impl_nested, oracle=oracle_nested, site="set_params/nested")
     return chk.finish()
 
 
@@ -632,6 +695,10 @@ def replay(path):
     case = v["case"]
     if case is None:
         print(json.dumps(v, indent=1)[:4000])
+        return 0
+    if v["stream"] == "nested":
+        r = impl_nested(case)
+        print("implementation:", r, "\noracle:", oracle_nested(case, r))
         return 0
     if v["stream"] == "arrays":
         r = impl_array(case)
